@@ -77,11 +77,14 @@ class Rng(object):
 
 
 class Alpha(object):
-    """Permitted alphabet (FROM).  items: list of (a, b) inclusive char ranges."""
-    __slots__ = ('items',)
+    """Permitted alphabet (FROM).  items: list of (a, b) inclusive char ranges.
+    ext: the constraint is written '(FROM(...), ...)': extensible, every character of the type is admitted
+    (and the constraint is not PER-visible)."""
+    __slots__ = ('items', 'ext')
 
-    def __init__(self, items):
+    def __init__(self, items, ext=False):
         self.items = [tuple(i) for i in items]
+        self.ext = ext
 
     def chars(self):
         s = set()
@@ -121,7 +124,7 @@ class Group(object):
 class Ty(object):
     __slots__ = ('kind', 'tag', 'named', 'rng', 'enum_root', 'enum_ext', 'named_bits',
                  'size', 'alpha', 'root', 'ext', 'root2', 'elem', 'elem_name', 'ref',
-                 'ref_mod', 'wc', 'uid', 'raw')
+                 'ref_mod', 'wc', 'uid', 'raw', 'raw_refs')
 
     def __init__(self, kind, **kw):
         self.kind = kind
@@ -144,6 +147,7 @@ class Ty(object):
         self.uid = None
         self.raw = None          # printed instead of the structure (COMPONENTS OF etc.); the
         #                          structure then only describes the value space
+        self.raw_refs = None     # type names the raw text refers to (COMPONENTS OF X -> ['X'])
         for k, v in kw.items():
             setattr(self, k, v)
 
@@ -250,13 +254,13 @@ class Resolved(object):
                intersect); we only keep the outermost one written and the
                generators never stack two different constraints of one kind.
     """
-    __slots__ = ('base', 'mod', 'tags', 'rng', 'size', 'alpha', 'chain')
+    __slots__ = ('base', 'mod', 'tags', 'rng', 'size', 'alpha', 'chain', 'alpha_ext')
 
 
 def resolve(spec, ty, modname):
     r = Resolved()
     r.tags = []
-    r.rng = r.size = r.alpha = None
+    r.rng = r.size = r.alpha = r.alpha_ext = None
     r.chain = []
     t, mod = ty, modname
     hops = 0
@@ -267,8 +271,11 @@ def resolve(spec, ty, modname):
             r.rng = t.rng
         if r.size is None and t.size is not None:
             r.size = t.size
-        if r.alpha is None and t.alpha is not None:
-            r.alpha = t.alpha
+        if r.alpha is None and r.alpha_ext is None and t.alpha is not None:
+            if t.alpha.ext:
+                r.alpha_ext = t.alpha       # extensible: constrains nothing; kept for the value generator
+            else:
+                r.alpha = t.alpha
         if t.kind != 'REF':
             break
         r.chain.append(t.ref)
@@ -319,7 +326,7 @@ def print_constraints(t):
     elif t.size is not None:
         out += ' (SIZE(%s))' % t.size.inner()
     elif t.alpha is not None:
-        out += ' (%s)' % t.alpha.text()
+        out += ' (%s%s)' % (t.alpha.text(), ', ...' if t.alpha.ext else '')
     return out
 
 
